@@ -428,13 +428,19 @@ func (s *Sim) resetDelivered(rec *ResetRec) {
 	}
 }
 
+// deleteAnnounced: the gateway has been told (or has concluded) that the
+// resource is deleted, and has not loaded it anew since.
 func (v *Variant) deleteAnnounced() bool {
+	del := false
 	for _, e := range v.Stream {
-		if e.Kind == "delete" {
-			return true
+		switch e.Kind {
+		case "delete":
+			del = true
+		case "snap":
+			del = false
 		}
 	}
-	return false
+	return del
 }
 
 func (s *Sim) allDelivered() bool {
